@@ -686,11 +686,20 @@ INTEGER_decode_uper(const asn_codec_ctx_t *opt_codec_ctx,
 		/*
 		 * TODO: replace by in-place arithmetics.
 		 */
-		long value = 0;
-		if(asn_INTEGER2long(st, &value))
-			ASN__DECODE_FAILED;
-		if(asn_imax2INTEGER(st, value + ct->lower_bound))
-			ASN__DECODE_FAILED;
+		if(specs && specs->field_unsigned) {
+			unsigned long uvalue = 0;
+			unsigned long ulb = (unsigned long)ct->lower_bound;
+			if(asn_INTEGER2ulong(st, &uvalue)
+			|| uvalue > (~(unsigned long)0) - ulb
+			|| asn_ulong2INTEGER(st, uvalue + ulb))
+				ASN__DECODE_FAILED;
+		} else {
+			long value = 0;
+			if(asn_INTEGER2long(st, &value))
+				ASN__DECODE_FAILED;
+			if(asn_imax2INTEGER(st, value + ct->lower_bound))
+				ASN__DECODE_FAILED;
+		}
 	}
 
 	return rval;
